@@ -94,9 +94,20 @@ class Injector:
 
         setattr(obj, name, w)
 
-    def run_actor(self, fn: Callable[[], Any], k: int) -> bool:
-        """run fn in a thread that dies before its k-th effect; returns True if it was parked (crashed)"""
+    def commit_gate(self) -> None:
+        """called right after a SQLite transaction of the acting thread has been committed"""
+        if threading.get_ident() != self.actor:
+            return
+        self.commits += 1
+        if self.commits == self.commit_k:
+            self.parked.set()
+            self._never.wait()
+
+    def run_actor(self, fn: Callable[[], Any], k: int, commit_k: int = -1) -> bool:
+        """run fn in a thread that dies before its k-th effect (or right after its commit_k-th SQLite commit); returns True
+        if it was parked (crashed)"""
         self.k, self.done, self.rel_done, self.effects = k, 0, 0, []
+        self.commits, self.commit_k = 0, commit_k
         self.parked.clear()
         finished = threading.Event()
 
@@ -119,6 +130,51 @@ class Injector:
                 return False
             _time.sleep(0.0005)
         raise RuntimeError("actor neither finished nor parked")
+
+
+class CommitHook:
+    """every committed SQLite transaction is a crash point: `SQLiteConnection.commit` and the implicit commit of
+    `with connection:` call `on_commit` when a transaction was open"""
+
+    def __init__(self) -> None:
+        self.on_commit: Callable[[], None] | None = None
+
+    def install(self) -> "CommitHook":
+        from pynenc.util.sqlite_utils import SQLiteConnection as C
+
+        hook = self
+        self._exit = C.__exit__
+
+        def commit(conn) -> None:  # type: ignore[no-untyped-def]
+            was = conn._conn.in_transaction
+            conn._conn.commit()
+            if was and hook.on_commit:
+                hook.on_commit()
+
+        def exit_(conn, et, ev, tb) -> None:  # type: ignore[no-untyped-def]
+            was = conn._conn.in_transaction
+            hook._exit(conn, et, ev, tb)
+            if was and et is None and hook.on_commit:
+                hook.on_commit()
+
+        C.commit, C.__exit__ = commit, exit_  # type: ignore[method-assign]
+        return self
+
+    def uninstall(self) -> None:
+        from pynenc.util.sqlite_utils import SQLiteConnection as C
+
+        del C.commit
+        C.__exit__ = self._exit  # type: ignore[method-assign]
+
+
+def queued_copies(app, target: str) -> int:
+    b = app.broker
+    got = []
+    while (i := b.retrieve_invocation()) is not None:
+        got.append(i)
+    for i in got:
+        b.route_invocation(i)
+    return sum(1 for i in got if str(i) == str(target))
 
 
 class Scenario:
@@ -333,6 +389,34 @@ def run(ctx: Ctx) -> None:
     clock = VirtualClock().install()
     nd = 0
     points = 0
+    hook = CommitHook().install()
+    commit_points = 0
+
+    def one_point(kind: str, sc: Scenario, k: int, commit_k: int = -1) -> dict:
+        app = make_app(kind, ctx.tmp, app_id=f"c03{kind}{sc.name}{k}c{commit_k if commit_k >= 0 else ''}", max_pending_seconds=5.0,
+                       runner_considered_dead_after_minutes=0.5, runner_cls="ThreadRunner")
+        T.C03_DONE.clear()
+        st = sc.setup(app)
+        app.orchestrator.register_runner_heartbeats(["rA"])
+        if st.get("advance"):
+            clock.advance(3_600_000_000)       # the dead runner's work is stale before the recovery task starts
+            app.orchestrator.register_runner_heartbeats(["rA"])
+        inj = Injector(app)
+        if "shim" in st:
+            st["shim"].inj = inj
+        hook.on_commit = inj.commit_gate if commit_k >= 0 else None
+        try:
+            crashed = inj.run_actor(lambda: sc.actor(app, st), k, commit_k)
+        finally:
+            hook.on_commit = None
+        r = {"crashed": crashed, "rel": inj.rel_done, "effects": list(inj.effects), "commits": inj.commits,
+             "pre_status": app.orchestrator.get_invocation_status(st["target"]).value}
+        r["queued"] = queued_copies(app, st["target"])
+        r["final"], r["done"] = survivor_drains(app, clock, st["target"], (lambda: sc.after(app, st)) if sc.after else None)
+        flush(app)
+        r["recovered"] = r["final"] in ("success", "failed", "concurrency_controlled_final") and r["done"] >= 1
+        return r
+
     try:
         for kind in ("mem", "sqlite"):
             for sc in scenarios():
@@ -342,25 +426,12 @@ def run(ctx: Ctx) -> None:
                     line = drv.ask(f"crash.table {sc.program} {sc.start[0]} {sc.start[1]}")
                     table = [x == "1" for x in line.split("|")[0].split()]
                 k = 0
+                label_of_state: dict[tuple[str, int], str] = {}
+                ncommits = 0
                 while True:
-                    app = make_app(kind, ctx.tmp, app_id=f"c03{kind}{sc.name}{k}", max_pending_seconds=5.0, runner_considered_dead_after_minutes=0.5,
-                                   runner_cls="ThreadRunner")
-                    T.C03_DONE.clear()
-                    st = sc.setup(app)
-                    app.orchestrator.register_runner_heartbeats(["rA"])
-                    if st.get("advance"):
-                        clock.advance(3_600_000_000)       # the dead runner's work is stale before the recovery task starts
-                        app.orchestrator.register_runner_heartbeats(["rA"])
-                    inj = Injector(app)
-                    if "shim" in st:
-                        st["shim"].inj = inj
-                    crashed = inj.run_actor(lambda: sc.actor(app, st), k)
-                    rel = inj.rel_done
-                    effects = list(inj.effects)
-                    pre_status = app.orchestrator.get_invocation_status(st["target"]).value
-                    final, done = survivor_drains(app, clock, st["target"], (lambda: sc.after(app, st)) if sc.after else None)
-                    flush(app)
-                    recovered = final in ("success", "failed", "concurrency_controlled_final") and done >= 1
+                    r = one_point(kind, sc, k)
+                    crashed, rel, effects, pre_status, final, done, recovered = (r["crashed"], r["rel"], r["effects"], r["pre_status"], r["final"],
+                                                                                 r["done"], r["recovered"])
                     points += 1
                     ctx.count()
                     ctx.distinct((kind, sc.name, k, crashed, recovered))
@@ -368,8 +439,6 @@ def run(ctx: Ctx) -> None:
                     rep = {"backend": kind, "role": sc.name, "crash_before_effect": k, "effects_done": effects, "status_at_crash": pre_status,
                            "final_status": final, "body_completions": done}
                     model_prot = None
-                    if crashed:
-                        queued_now = "1" if pre_status in ("registered", "rerouted", "retry") and False else None
                     if table is not None and crashed:
                         model_prot = table[rel] if rel < len(table) else None
                     elif crashed:
@@ -380,25 +449,51 @@ def run(ctx: Ctx) -> None:
                         nd += 1
                         ctx.obligation(f"crash-table correspondence [{kind}] {sc.name}", False,
                                        f"{point}: model says {'recoverable' if model_prot else 'NOT recoverable'}, real run ended {final} with {done} body completion(s)")
+                    last = effects[-1] if effects else "start"
+                    if crashed:
+                        label_of_state.setdefault((pre_status, r["queued"]), f"after:{last}")
                     if not recovered:
-                        last = effects[-1] if effects else "start"
                         sig = f"crash:{sc.name}:after:{last}" if crashed else f"no-crash:{sc.name}"
                         ctx.report(sig, f"[{kind}] {sc.name}: the acting process dies {point} with the invocation {pre_status}; after recovery and a surviving runner it is {final} "
                                         f"(body completed {done}x): an accepted invocation is stranded", rep)
                     if not crashed:
+                        ncommits = r["commits"]
                         break
                     k += 1
                     if k > 40:
                         break
+                # -- finer crash points on SQLite: right after EVERY transaction the acting thread commits (a backend effect may be
+                #    several transactions; auxiliary writes - waiters, contexts - commit between effects).  Judged by the outcome; a
+                #    stranded state is named after the effect-level point that leaves the same (status, queued copies), if any.
+                if kind == "sqlite":
+                    j = 1
+                    while j <= 60:
+                        r = one_point(kind, sc, 10**6, commit_k=j)
+                        if not r["crashed"]:
+                            break
+                        commit_points += 1
+                        ctx.count()
+                        ctx.distinct((kind, sc.name, "commit", j, r["recovered"]))
+                        if not r["recovered"]:
+                            label = label_of_state.get((r["pre_status"], r["queued"]), f"intermediate:{r['pre_status']}:{r['queued']}")
+                            ctx.report(f"crash:{sc.name}:{label}",
+                                       f"[sqlite] {sc.name}: the acting process dies right after its {j}. committed transaction (effects completed so far {r['effects']}) with the "
+                                       f"invocation {r['pre_status']}, queued {r['queued']}x; after recovery and a surviving runner it is {r['final']} (body completed {r['done']}x): "
+                                       f"an accepted invocation is stranded",
+                                       {"backend": "sqlite", "role": sc.name, "crash_after_commit": j, "effects_done": r["effects"], "status_at_crash": r["pre_status"],
+                                        "queued": r["queued"], "final_status": r["final"]})
+                        j += 1
                 ctx.sample({"backend": kind, "role": sc.name, "crash_points": k + 1, "model_table": table})
         worker_loop_consumption(ctx)
         ctx.obligation(f"crash-point table: Lean classification == outcome of the real crash replay on Mem and SQLite ({points} points)", nd == 0, f"{nd} disagreements")
     finally:
+        hook.uninstall()
         clock.uninstall()
         drv.close()
     ctx.notes["crash_points"] = points
+    ctx.notes["commit_level_crash_points_sqlite"] = commit_points
     ctx.assumptions += [
-        "a hard crash is modelled by parking the acting thread for ever between two backend effects (no finally block runs); crashes inside one backend call (one SQL transaction / one dict update) are not explored",
+        "a hard crash is modelled by parking the acting thread for ever between two backend effects (no finally block runs) and, on SQLite, right after every transaction the acting thread commits; a crash inside one SQL transaction (rolled back by SQLite) or inside one in-memory dict update is not explored",
         "liveness needs a live runner, the recovery services running, fair scheduling and terminating bodies (hypotheses of recoverable_leads_to_final)",
         "client roles: a call is accepted only when it returns, so crash points inside it are outside the property; their programs are pinned by table_client",
     ]
